@@ -407,18 +407,22 @@ PLANS = {
     "C07": {
         "mc": {"quick": [{"module": "Concurrent", "cfg": "cfg/MCConc.quick.cfg", "emit_cases": "cases.txt", "workers": 4},
                          {"module": "Concurrent", "cfg": "cfg/MCConc.mixed.cfg", "emit_cases": "casesm.txt", "workers": 4},
-                         {"module": "Concurrent", "cfg": "cfg/MCConc.try.cfg", "emit_cases": "casest.txt", "workers": 4}],
+                         {"module": "Concurrent", "cfg": "cfg/MCConc.try.cfg", "emit_cases": "casest.txt", "workers": 4},
+                         {"module": "ConcEvents", "cfg": "cfg/MCConcEv.quick.cfg", "emit_cases": "casesev.txt", "workers": 4}],
                "thorough": [{"module": "Concurrent", "cfg": "cfg/MCConc.quick.cfg", "emit_cases": "cases.txt", "workers": 4},
                             {"module": "Concurrent", "cfg": "cfg/MCConc.mixed.cfg", "emit_cases": "casesm.txt", "workers": 4},
                             {"module": "Concurrent", "cfg": "cfg/MCConc.try.cfg", "emit_cases": "casest.txt", "workers": 4},
+                            {"module": "ConcEvents", "cfg": "cfg/MCConcEv.quick.cfg", "emit_cases": "casesev.txt", "workers": 4},
                             {"module": "Concurrent", "cfg": "cfg/MCConc.thorough.cfg", "emit_cases": "cases3.txt", "workers": 8, "timeout": 3400}]},
         "drive": {"quick": [{"args": ["conc", "-cases", "{S}/cases.txt", "-n", "0", "-seed", "{seed}"]},
                             {"args": ["conc", "-cases", "{S}/casesm.txt", "-n", "0", "-seed", "{seed}"]},
                             {"args": ["conc", "-cases", "{S}/casest.txt", "-n", "0", "-seed", "{seed}"]},
+                            {"args": ["conc", "-cases", "{S}/casesev.txt", "-n", "0", "-seed", "{seed}"]},
                             {"args": ["conc", "-n", "400", "-seed", "{seed}"], "race": True}],
                   "thorough": [{"args": ["conc", "-cases", "{S}/cases.txt", "-n", "0", "-seed", "{seed}"], "timeout": 3400},
                                {"args": ["conc", "-cases", "{S}/casesm.txt", "-n", "0", "-seed", "{seed}"], "timeout": 3400},
                                {"args": ["conc", "-cases", "{S}/casest.txt", "-n", "0", "-seed", "{seed}"], "timeout": 3400},
+                               {"args": ["conc", "-cases", "{S}/casesev.txt", "-n", "0", "-seed", "{seed}"], "timeout": 3400},
                                {"args": ["conc", "-cases", "{S}/cases3.txt", "-exhmax", "30000", "-n", "0", "-seed", "{seed}"], "timeout": 3400},
                                {"args": ["conc", "-n", "8000", "-seed", "{seed}"], "race": True, "timeout": 3400}]},
         "judge": {"module": "JudgeConc", "cfg": "JudgeConc.cfg"},
